@@ -37,6 +37,7 @@ type Program struct {
 	// all source functions (incl. anonymous) of module packages in U
 	Funcs []*ssa.Function
 	cg    *callgraph.Graph
+	roles *Roles
 
 	LoadSeconds float64
 	NumFiles    int
